@@ -142,7 +142,7 @@ def r01_2(ctx):
         lv = C.trace(b, t["args"][pw - 1], through_fields=True)
         site = ctx.site(b, bb)
         if b.name == ROLE["execute_directive_temp"]:
-            if has_const(lv, '""') and len(lv) == 1:
+            if len(lv) == 1 and is_empty_text(lv[0]):
                 ctx.ok("temp content is formatted without indentation", site=site)
             else:
                 ctx.violation([b.name, "temp-indent"], "temp content is indented with something other than the empty string", site=site)
@@ -638,6 +638,26 @@ def r14_5(ctx):
 NAME_TABLE = {'""': "Empty", '"include"': "Include", '"after"': "After", '"run"': "Run", '"temp"': "Temp", '"tag"': "Tag", '"write"': "Write"}
 
 
+def _split_at_find_space(df):
+    """the hand-written split_once(' '): exactly one `s.find(' ')`; the name is `s[..i]` and the argument `s[i+1..]` of the same s"""
+    import rules_panic as RP
+    fs = [(bb, t) for bb, t in calls_to(df, RP.FIND) if C.op_const(t["args"][1]) == "' '"]
+    if len(fs) != 1:
+        return False
+    fbb, ft = fs[0]
+    s_id = RP.ident(df, ft["args"][0])
+    head = tail = False
+    for bb, t in calls_to(df, RP.STR_INDEX):
+        if not RP.same(RP.ident(df, t["args"][0]), s_id):
+            continue
+        kind, parts = RP.range_parts(df, t["args"][1])
+        if kind == "RangeTo" and any(l.kind == "call" and l.bb == fbb for l in C.trace(df, parts["end"])):
+            head = True
+        if kind == "RangeFrom" and RP.find_plus_patlen(df, parts["start"], s_id):
+            tail = True
+    return head and tail
+
+
 @rule("C15", "R15.1", floor=9)
 def r15_1(ctx):
     lib = ctx.lib
@@ -684,6 +704,8 @@ def r15_1(ctx):
                          for l in C.trace(df, x[1]["args"][1]))]
         if len(so) == 1 and C.op_const(so[0][1]["args"][1]) == "' '":
             ctx.ok("name/argument separator is one space (split_once(' '))", site=ctx.site(df, so[0][0]))
+        elif not so and _split_at_find_space(df):
+            ctx.ok("name/argument separator is one space (find(' '), name = s[..i], argument = s[i+1..])", site=ctx.site(df, 0))
         else:
             ctx.violation(["separator"], "the directive name is no longer split from its argument at the first single space", site=ctx.site(df, 0))
 
@@ -909,9 +931,22 @@ def r15_5(ctx):
         if nm.endswith("::eq") and len(t["args"]) == 2:
             for a in t["args"]:
                 lv = C.trace(al, a, through_fields=True)
-                if any(l.kind == "call" and C.callee_name(l.data) == "std::str::<impl str>::trim_end_matches" and
+                if any(l.kind == "call" and C.callee_name(l.data) in ("std::str::<impl str>::trim_end_matches", "std::str::<impl str>::trim_end") and
                        has_field(C.trace(al, l.data["args"][0], through_fields=True), "prefix") for l in lv):
                     forms.add("prefix-without-trailing-whitespace")
+        if nm == "std::slice::<impl [T]>::get":
+            # byte-level spelling of "starts with len(prefix) spaces": bytes.get(..len(prefix)) whose items are compared with b' '
+            from rules_panic import range_parts, len_of
+            kind, parts = range_parts(al, t["args"][1])
+            lo = len_of(al, parts.get("end")) if kind == "RangeTo" else None
+            if lo and any(x[0] == "field" and any(n == "prefix" for (_o, _v, n) in x[1]) for x in lo):
+                for bb2, si2, st2 in al.stmts():
+                    rv2 = st2["rv"] if st2["k"] == "assign" else None
+                    if rv2 and rv2["k"] == "binop" and rv2["op"] in ("Eq", "Ne"):
+                        for x, y in ((rv2["a"], rv2["b"]), (rv2["b"], rv2["a"])):
+                            if C.op_const(y) == "32_u8" and any(l.kind == "call" and l.bb == bb for l in C.trace(
+                                    al, x, transparent=lambda tt: C.is_transparent(tt) or T.item_preserving(C.callee_name(tt)))):
+                                forms.add("spaces-of-prefix-length")
     want = {"same-prefix", "spaces-of-prefix-length", "prefix-without-trailing-whitespace"}
     if forms == want:
         ctx.ok("the three continuation forms are tested: %s" % sorted(forms), site=ctx.site(al, 0))
@@ -1229,6 +1264,19 @@ def _component_deltas(prog, b):
                         st[tl] = (frozenset(x + 1 for x in d), False)
                     else:
                         st[tl] = (None, False)
+            elif nm == "std::path::Path::with_extension":
+                # set_extension on a copy: the receiver may be a working copy or the source path itself
+                tl = target(0)
+                cur = st[tl] if tl is not None else (
+                    (frozenset([0]), False) if any(l.kind == "param" and l.data == p_self for l in C.trace(b, t["args"][0])) else None)
+                if cur is not None:
+                    d = cur[0]
+                    if d is not None and d != "EMPTY":
+                        if C.op_const(t["args"][1]) == '""':
+                            d = frozenset(x - 1 for x in d)
+                        else:
+                            d = frozenset(x for x in d) | frozenset(x + 1 for x in d)
+                    st[dest] = (d, False)
             elif nm in ("std::path::PathBuf::add_extension",):
                 tl = target(0)
                 if tl is not None and st[tl][0] is not None:
